@@ -138,7 +138,7 @@ def r06a(ctx, rep, cr):
                 rep.holds('R06a', f, 'mutation#%d' % k, 'invalidate(%s) on every success path' % kind)
             else:
                 rep.violation('R06a', f, 'wrong-collection', f.loc(c.line), 'the cache is invalidated for a different collection than the one whose embeddings change (%s)' % kind)
-    rep.floor('R06a', 'store mutations on embedding keys', n, 8)
+    rep.floor('R06a', 'store mutations on embedding keys', n, 4)
 
 
 def r06b(ctx, rep, cr):
@@ -175,7 +175,43 @@ def r06b(ctx, rep, cr):
                           'an invalidation in between pairs an index with another index\'s keys' % acq)
 
 
+LOSSY_SPARSE = re.compile(r'sparse_vector::SparseVector::(from_dense_with_threshold|try_from_dense_with_threshold|prune|pruned|top_k|truncate\w*|quantize\w*|retain\w*)$')
+
+
+def r06c(ctx, rep, cr):
+    rep.rule('R06c', 'stored vectors read back exactly as written: every TensorValue::Sparse that a VectorEngine method hands to the '
+                     'store is built by a lossless constructor (from_dense / try_from_dense / from_parts); no thresholding or pruning '
+                     'constructor (from_dense_with_threshold, prune, pruned, …) is on its def-use path')
+    n = 0
+    for f in cr.fns.values():
+        if not f.name.startswith(VE):
+            continue
+        defs = None
+        for b in f.bbs:
+            if b['cleanup']:
+                continue
+            for st in b['s']:
+                rv = st[1]
+                if rv[0] == 'agg' and rv[1].endswith('TensorValue::Sparse') and rv[2] and rv[2][0][0] != 'k':
+                    defs = defs or A.Defs(f)
+                    sl = A.backward_slice(f, [rv[2][0]], defs)
+                    # only values that go to the store: the function also calls a store mutator
+                    if not any(MUT.match(c.resolved) for h in A.with_closures(cr.fns, A.parent_fn(f.name)) for c in A.calls(h)):
+                        continue
+                    n += 1
+                    rep.analysed(f)
+                    lossy = sorted(x for x in sl.calls if LOSSY_SPARSE.search(x))
+                    if lossy:
+                        rep.violation('R06c', f, 'lossy-sparse-store', f.loc(st[2]),
+                                      'the vector is stored through %s: components below the threshold are dropped, so it does not read back as written and '
+                                      'exhaustive search scores a different vector' % ', '.join(lib.short(x) for x in lossy))
+                    else:
+                        rep.holds('R06c', f, 'sparse store', 'lossless constructor')
+    rep.floor('R06c', 'sparse values handed to the store', n, 2)
+
+
 def run(ctx, rep):
     cr = ctx.crate('vector_engine')
     r06a(ctx, rep, cr)
     r06b(ctx, rep, cr)
+    r06c(ctx, rep, cr)
